@@ -15,6 +15,7 @@ import DocsModel.Model.Codec
 import DocsModel.Model.Session
 import DocsModel.Model.Coord
 import DocsModel.Model.Txn
+import DocsModel.Model.Swarm
 /-!
 Line-protocol driver: one output line per input line. The Rust harness pipes the same operation
 lines it applied to the real crate and compares the two output streams.
@@ -73,6 +74,8 @@ structure World where
   coords : List (Nat × Coord.Sys) := []
   /-- persistent stores with their transaction layer (C06) -/
   pstores : List (Nat × Txn.P) := []
+  /-- swarms of replicas (C04) -/
+  swarms : List (Nat × Swarm.S) := []
   /-- specification bookkeeping for C14: handles per (actor, document) = opens − releases -/
   handleCounts : List ((Nat × Bytes) × Nat) := []
 
@@ -383,6 +386,29 @@ def showHeads (hs : List (Bytes × Nat × Bytes)) : String :=
 under `PayloadFunctional`, duplicates by id would be collapsed — the harness flags those cases) -/
 def sortById (es : List Entry) : List Entry := es.foldl (fun acc e => insertSorted e acc) []
 
+/-- an entry reaches replica `i` of swarm `sid` through `insert_remote_entry` -/
+def swarmDeliver (w : World) (short : Bool) (sid i ns now tok : String) : World × String :=
+  match parseNat? sid, parseNat? i, Bytes.ofHex ns, parseNat? now, parseEntry? tok with
+  | some sid, some i, some ns, some now, some e =>
+    match w.swarms.lookup sid with
+    | some s =>
+      if !(Swarm.written s).contains e then (w, "foreign-entry")
+      else if !Replica.validateEmpty e then (w, "err:invalid-empty")
+      else match Replica.validateEntry now ns e with
+        | some .invalidNamespace => (w, "err:invalid-namespace")
+        | some .badSignature => (w, "err:bad-signature")
+        | some .tooFarInTheFuture => (w, "err:future")
+        | some .invalidEmptyEntry => (w, "err:invalid-empty")
+        | none =>
+          let out := (Spec.put (s.st i) e).2
+          let s' := Swarm.step s (.deliver i e true)
+          ({ w with swarms := (sid, s') :: w.swarms.filter (·.1 != sid) },
+            match out with
+            | .notInserted => "notinserted"
+            | .inserted n => if short then "inserted" else "inserted " ++ toString n)
+    | none => (w, "no-store")
+  | _, _, _, _, _ => (w, "bad-op")
+
 def step (w : World) (line : String) : World × String :=
   let toks := (line.trimAscii.toString.splitOn " ").filter (· ≠ "")
   match toks with
@@ -593,6 +619,84 @@ def step (w : World) (line : String) : World × String :=
       | none => (w, "no-store")
     | _, _, _, _, _, _ => (w, "bad-op")
   -- snapshots and the join specification of a session
+  -- ---- a swarm of replicas (Swarm.lean) ----
+  | ["wnew", sid] =>
+    match parseNat? sid with
+    | some sid => ({ w with swarms := (sid, {}) :: w.swarms.filter (·.1 != sid) }, "ok")
+    | none => (w, "bad-op")
+  | ["wlocal", sid, i, tok] =>
+    match parseNat? sid, parseNat? i, parseEntry? tok with
+    | some sid, some i, some e =>
+      match w.swarms.lookup sid with
+      | some s =>
+        let out := (Spec.put (s.st i) e).2
+        let s' := Swarm.step s (.localWrite i e)
+        ({ w with swarms := (sid, s') :: w.swarms.filter (·.1 != sid) },
+          match out with | .notInserted => "notinserted" | .inserted n => "inserted " ++ toString n)
+      | none => (w, "no-store")
+    | _, _, _ => (w, "bad-op")
+  -- an entry reaches replica i by gossip; `now` is i's clock
+  | ["wdeliver", sid, i, ns, now, tok] => swarmDeliver w false sid i ns now tok
+  -- … or inside a message of a session (only the verdict is observable)
+  | ["wcarry", sid, i, ns, now, tok] => swarmDeliver w true sid i ns now tok
+  | ["wsession", sid, i, j] =>
+    match parseNat? sid, parseNat? i, parseNat? j with
+    | some sid, some i, some j =>
+      match w.swarms.lookup sid with
+      | some s => ({ w with swarms := (sid, Swarm.step s (.session i j)) :: w.swarms.filter (·.1 != sid) }, "ok")
+      | none => (w, "no-store")
+    | _, _, _ => (w, "bad-op")
+  | ["wrestart", sid, i] =>
+    match parseNat? sid, parseNat? i with
+    | some sid, some i =>
+      match w.swarms.lookup sid with
+      | some s => ({ w with swarms := (sid, Swarm.step s (.restart i)) :: w.swarms.filter (·.1 != sid) }, "ok")
+      | none => (w, "no-store")
+    | _, _ => (w, "bad-op")
+  | ["wdump", sid, i] =>
+    match parseNat? sid, parseNat? i with
+    | some sid, some i =>
+      match w.swarms.lookup sid with
+      | some s => (w, showEntries (s.st i))
+      | none => (w, "no-store")
+    | _, _ => (w, "bad-op")
+  -- specification: the merge of all accepted local writes
+  | ["wjoin", sid] =>
+    match parseNat? sid with
+    | some sid =>
+      match w.swarms.lookup sid with
+      | some s => (w, showEntries (sortById (Spec.join (Swarm.written s))))
+      | none => (w, "no-store")
+    | none => (w, "bad-op")
+  -- specification: every entry of the given (real) replica state was written by some replica
+  | ["wsubset", sid, toks] =>
+    match parseNat? sid with
+    | some sid =>
+      match w.swarms.lookup sid with
+      | some s =>
+        let es := if toks == "-" then some [] else (toks.splitOn ";").mapM parseEntry?
+        match es with
+        | some es =>
+          match es.find? (fun e => !(Swarm.written s).contains e) with
+          | some e => (w, "foreign:" ++ showEntry e)
+          | none => (w, "ok")
+        | none => (w, "bad-op")
+      | none => (w, "no-store")
+    | none => (w, "bad-op")
+  -- hypothesis of `closing_round_converges`: the closing round of complete sessions `a-b,c-d,…`
+  -- connects every writer to each of the replicas 0..n-1
+  | ["wconnects", sid, n, pairs] =>
+    match parseNat? sid, parseNat? n with
+    | some sid, some n =>
+      match w.swarms.lookup sid with
+      | some s =>
+        let steps := (pairs.splitOn ",").filterMap fun p =>
+          match p.splitOn "-" with
+          | [a, b] => do pure (Swarm.Step.session (← parseNat? a) (← parseNat? b))
+          | _ => none
+        (w, if Swarm.connects n (s.w.map (·.1)) steps then "connected" else "not-connected")
+      | none => (w, "no-store")
+    | _, _ => (w, "bad-op")
   -- ---- the transaction layer of a persistent store (Txn.lean) ----
   | ["pnew", sid] =>
     match parseNat? sid with
